@@ -67,6 +67,18 @@ def gen_body(rng, kind, depth=0, budget=None):
         elif r < 0.46 and kind != 'gen':
             out.append({'s': 'await', 'lat': rng.choice([0, 1, 2, 5]), 'tag': rng.choice(VALUES)})
         elif r < 0.60 and depth < 3:
+            if kind != 'coro' and rng.random() < 0.15:
+                # a handler that *swallows* GeneratorExit (or everything) without yielding again: cleanup, then the generator
+                # ends - inside the property (only yielding while handling GeneratorExit is excluded)
+                out.append({'s': 'try_except', 'exc': [rng.choice(['GeneratorExit', 'BaseException'])],
+                            'body': gen_body(rng, kind, depth + 1, budget),
+                            'handler': [{'s': 'log', 'v': rng.randrange(100)}] if rng.random() < 0.5 else [],
+                            'reraise': rng.random() < 0.25})
+                if not out[-1]['reraise']:
+                    # nothing may be yielded once GeneratorExit has been swallowed (that would be the excluded kind of body)
+                    out.append({'s': 'return', 'v': rng.choice(VALUES)})
+                    break
+                continue
             out.append({'s': 'try_except', 'exc': rng.sample(CATCHABLE, rng.randint(1, 2)),
                         'body': gen_body(rng, kind, depth + 1, budget),
                         'handler': gen_body(rng, kind, depth + 1, budget) if rng.random() < 0.5 else [],
@@ -232,6 +244,10 @@ def generate(rng, run, tier):
     if kind == 'gen' or rng.random() < 0.5:
         case['driver'] = 'protocol'
         case['ops'] = gen_ops(rng, kind)
+        if _swallows_generatorexit(case['body']) and rng.random() < 0.9:
+            # avoid switch: known finding C08-explicit-throw-of-generatorexit (most cases close instead of throwing it)
+            case['ops'] = [[{'throw': 'close', 'athrow': 'aclose'}[o[0]]] if o[0] in ('throw', 'athrow') and o[1] == 'GeneratorExit' else o
+                           for o in case['ops']]
         # close()/athrow(GeneratorExit)/finalisation without a loop cannot suspend: an awaiting cleanup would be a
         # body that "yields while handling GeneratorExit", which the property excludes -> such awaits complete at once
         _zero_final_awaits(case['body'])
@@ -239,6 +255,16 @@ def generate(rng, run, tier):
         case['driver'] = 'loop'
         case['scenario'] = gen_loop_scenario(rng, kind)
     return case
+
+
+def _swallows_generatorexit(body):
+    for st in body:
+        if st['s'] == 'try_except' and not st.get('reraise') and any(e in ('GeneratorExit', 'BaseException') for e in st['exc']):
+            return True
+        for key in ('body', 'handler', 'final'):
+            if st.get(key) and _swallows_generatorexit(st[key]):
+                return True
+    return False
 
 
 def _zero_final_awaits(body, in_final=False):
@@ -732,7 +758,19 @@ def shrink(case, violation):
         yield c
 
 
-SIGNATURES = {}
+def _sig_explicit_generatorexit(case, v):
+    """Known finding C08-explicit-throw-of-generatorexit: GeneratorExit thrown *explicitly* (throw / athrow, not close) into a body
+    that swallows it and finishes comes back out of the decorated generator, where the undecorated one just stops."""
+    if v.get('kind') != 'trace_differs' or case.get('driver') != 'protocol' or not _swallows_generatorexit(case.get('body', [])):
+        return False
+    if not any(o[0] in ('throw', 'athrow') and o[1] == 'GeneratorExit' for o in case.get('ops', [])):
+        return False
+    d = v.get('detail', '')
+    i = d.find('decorated=')
+    return i >= 0 and "'exc', 'GeneratorExit'" in d[i:] and ('stop' in d[:i])
+
+
+SIGNATURES = {'explicit_throw_of_generatorexit': _sig_explicit_generatorexit}
 
 
 def describe(case):
